@@ -186,6 +186,7 @@ type Engine struct {
 	extraFn    map[string]string // uninterpreted function declarations
 	nfaults    int
 	nsnaps     int
+	Applied    map[string]bool // "<package name>.<function key>" of every contract applied at a call site (which supporting contracts a check rests on)
 	Go64       bool // dialect go64: fixed-width integers, overflow-freedom is an obligation
 	Sweep      bool // zero-annotation mode: loops are cut with the syntactic frame only
 	ufSig      map[string]string
